@@ -216,13 +216,15 @@ def run_case(case):
         kw["alpha"] = 1.0 / float(np.linalg.eigvalsh(Hmat)[-1])
     if eff == "PrimalDualHybridGradient":
         t = case["tau"]
+        # (steps given in the scaled problem's units: with A -> s A the equivalent primal step
+        # is tau / s^2 and the dual step is unchanged, i.e. 0.9 / ||A|| divided / multiplied by s)
         if t in ("tau", "both"):
-            kw["tau"] = 0.9 / nAG
+            kw["tau"] = 0.9 / nAG / asc
         if t in ("sigma", "both"):
-            kw["sigma"] = 0.9 / nAG
+            kw["sigma"] = 0.9 / nAG * asc
         if t == "sigma-arr":
             osz = int(np.prod(yshape)) + (Gm.shape[0] if Gm is not None else 0)
-            sa = (0.5 + rng.random(osz)) * 0.9 / nAG
+            sa = (0.5 + rng.random(osz)) * 0.9 / nAG * asc
             kw["sigma"] = sa if G is not None else sa.reshape(yshape)
             if G is not None:
                 kw["sigma"] = sa      # Vstack with axis=None flattens the dual variable
